@@ -262,6 +262,8 @@ CURATED = {
     "wide7": "C(C(l,l),l,l,l,R(l,l),l,l)",
     "width1": "C(C(l),O(l),l)",
     "plans2": "C(C(l,C(l,l)),O(C(l,l),l),l)",
+    "plannest": "C(C(l,C(l,l)),l)",
+    "planortho": "C(O(C(l,l),l),l)",
     "randroot": "N(l,l,l,l)",
     "randfirst": "C(N(l,l,l),l)",
     "inject": "C(li,C(l,li)i,O(li,l)i)",
